@@ -10,6 +10,7 @@ import CocaVerif.Drv.Stats
 import CocaVerif.Drv.Tbs
 import CocaVerif.Drv.Git
 import CocaVerif.Drv.Todo
+import CocaVerif.Drv.Arch
 open Lean
 
 partial def loop {σ : Type} (h : IO.FS.Stream) (out : IO.FS.Stream) (step : σ → Json → σ × Json) (st : σ) : IO Unit := do
@@ -37,4 +38,5 @@ def main (args : List String) : IO UInt32 := do
   | ["tbs"] => loop stdin stdout CocaVerif.Drv.Tbs.step (); return 0
   | ["git"] => loop stdin stdout CocaVerif.Drv.Git.step {}; return 0
   | ["todo"] => loop stdin stdout CocaVerif.Drv.Todo.step (); return 0
+  | ["arch"] => loop stdin stdout CocaVerif.Drv.Arch.step (); return 0
   | _ => IO.eprintln "usage: driver <family>"; return 2
